@@ -124,7 +124,7 @@ fn first_diff(want: &[ColSpec], got: &[ColSpec]) -> Option<(String, String, Stri
             };
             let extra = match (attr, &w.ty) {
                 ("type", Ty::Str(n)) | ("nullable", Ty::Str(n)) | ("key", Ty::Str(n)) | ("localizable", Ty::Str(n)) => format!(":width-{}", width_class(*n)),
-                ("enum-values", _) => format!(":{}", if w.enums.iter().any(|e| e.contains(';')) { "semicolon" } else if w.enums.iter().any(|e| e.is_empty()) { "empty-value" } else { "other" }),
+                ("enum-values", _) => format!(":{}", if w.enums.iter().any(|e| e.contains(';')) { "semicolon" } else if w.enums.iter().any(|e| e.is_empty()) { "empty-value" } else if w.enums.iter().any(|e| e.trim() != e) { "surrounding-whitespace" } else { "other" }),
                 _ => String::new(),
             };
             return Some((format!("{:?}", w), format!("{:?}", g), format!("{}{}", attr, extra)));
@@ -219,6 +219,8 @@ fn g2() -> Vec<Case> {
         ("empty-and-x", vec!["".into(), "x".into()]),
         ("x-and-empty", vec!["x".into(), "".into()]),
         ("319-chars", long),
+        ("whitespace", vec!["on".into(), " on".into(), "off ".into(), " ".into(), "a b".into()]),
+        ("case-and-dup-like", vec!["A".into(), "a".into(), "A ".into()]),
         ("255-chars", vec!["z".repeat(255)]),
         ("256-chars", vec!["z".repeat(256)]),
     ];
@@ -312,6 +314,73 @@ fn g3() -> Vec<Case> {
     out
 }
 
+/// G4: the schema must also survive when the table is created in a package
+/// with a history: after other tables were created and dropped, across
+/// reopens, re-using freed string-pool entries.
+fn g4_histories(rep: &mut Report) -> u64 {
+    use crate::e1::{linear_history_checks, Config, Monitors};
+    let target = Op::CreateTable {
+        name: "T".into(),
+        cols: vec![
+            ColSpec::new("K", Ty::I16).key(),
+            ColSpec::new("S", Ty::Str(20)).nullable().localizable().category("Identifier").enums(&["a", "b"]),
+            ColSpec::new("N", Ty::I32).nullable().range(-5, 5),
+        ],
+    };
+    let other = Op::CreateTable { name: "U".into(), cols: vec![ColSpec::new("K", Ty::I16).key(), ColSpec::new("S", Ty::Str(20)).nullable().category("Identifier").enums(&["a", "b"])] };
+    let pre: Vec<Op> = vec![target.clone(), other.clone(), Op::DropTable { name: "T".into() }, Op::DropTable { name: "U".into() }, Op::Reopen, Op::DropReopen, Op::Flush, Op::Insert { table: "U".into(), rows: vec![vec![crate::val::Val::Int(1), crate::val::Val::s("a")]] }];
+    // every history of length <= 4 over `pre`, followed by the target create
+    let mut hists: Vec<Vec<usize>> = vec![vec![]];
+    let mut frontier: Vec<Vec<usize>> = vec![vec![]];
+    for _ in 0..4 {
+        let mut next = Vec::new();
+        for h in &frontier {
+            for i in 0..pre.len() {
+                let mut n = h.clone();
+                n.push(i);
+                next.push(n);
+            }
+        }
+        hists.extend(next.iter().cloned());
+        frontier = next;
+    }
+    let cfg = Config {
+        property: "C06",
+        seed: None,
+        ptype: 0,
+        setup: vec![],
+        alphabet: vec![],
+        probes: vec![],
+        stream_names: vec![],
+        max_depth: 0,
+        wall_cap: std::time::Duration::from_secs(60),
+        monitors: Monitors { model: true, roundtrip: true, ..Monitors::default() },
+        merge_audits: 0,
+        nodedup_depth: 0,
+    };
+    let fr = crate::e1::fresh(0);
+    let results: Vec<Vec<crate::report::Violation>> = hists
+        .par_iter()
+        .map(|h| {
+            let mut ops: Vec<Op> = h.iter().map(|&i| pre[i].clone()).collect();
+            // make sure T does not exist when the target create runs
+            ops.push(Op::DropTable { name: "T".into() });
+            ops.push(target.clone());
+            // the helper refuses histories whose steps disagree with the model;
+            // a drop of a missing table is an expected error for both
+            linear_history_checks(&cfg, &fr, &ops)
+        })
+        .collect();
+    let n = hists.len() as u64;
+    for vs in results {
+        for mut v in vs {
+            v.signature = format!("history:{}", v.signature);
+            rep.violations.push(v);
+        }
+    }
+    n
+}
+
 pub fn run(tier: Tier) -> i32 {
     let mut rep = Report::new("C06", tier, "model_checking");
     rep.assume("a column's stored form is two independent records (type word in _Columns; one _Validation row), so the product is factored: G1 = every string width x 8 flag combinations x 3 categories, G2 = ranges x categories x enum lists x foreign keys x nullable x type, G3 = column lists and names");
@@ -346,8 +415,10 @@ pub fn run(tier: Tier) -> i32 {
     rep.set("g1_type_word_tables", n1);
     rep.set("g2_validation_row_tables", n2);
     rep.set("g3_list_and_name_tables", n3);
+    let n4 = g4_histories(&mut rep);
+    rep.set("g4_create_after_history", n4);
     rep.set("exhaustive", true);
-    rep.set("rule", "each case = one create_table on a fresh package; accepted: all attribute getters equal the request immediately and after save + reopen (foreign key via the decoder); refused: package identical to a fresh one. G1: every string width in the tier's set (thorough: all 0..=65535) x {nullable,key,localizable} x {none,Text,Binary}, both integer types; G2: 7 ranges x 27 categories x 10 enum lists x 6 foreign keys x nullable x 3 types; G3: every column count 1..33 with the key first/middle/last, no key, duplicate names, column and table names of every length 1..66. distinct_nontrivial = tables accepted and round-tripped");
+    rep.set("rule", "G4: the same create_table after every history of <= 4 steps over {create T, create U, drop T, drop U, reopen, drop+reopen, flush, insert}, then saved three ways and reopened. G1-G3: each case = one create_table on a fresh package; accepted: all attribute getters equal the request immediately and after save + reopen (foreign key via the decoder); refused: package identical to a fresh one. G1: every string width in the tier's set (thorough: all 0..=65535) x {nullable,key,localizable} x {none,Text,Binary}, both integer types; G2: 7 ranges x 27 categories x 10 enum lists x 6 foreign keys x nullable x 3 types; G3: every column count 1..33 with the key first/middle/last, no key, duplicate names, column and table names of every length 1..66. distinct_nontrivial = tables accepted and round-tripped");
     rep.sample(json!({"group": cases[0].group, "class": cases[0].class, "columns": cases[0].cols.len()}));
     rep.sample(json!({"group": cases[n1 + 5].group, "class": cases[n1 + 5].class, "first_column": cases[n1 + 5].cols[1]}));
     rep.finish()
